@@ -186,6 +186,36 @@ def main(tier):
                     ck.violation("R-C20-4", "statistic:%s" % sp[0].split(":")[0], ir.locstr(prog.fn("GMGPolar::solve")), "%s: %s" % (pk, "; ".join(sp)[:900]))
                 else:
                     ck.ok("R-C20-4", pk)
+    # ---- R-C20-6: enum options set through the setters to integers that are no enumerator (the command line rejects them, the
+    # programming interface does not): either an exception, or a run on which every read is defined
+    ck.rule("R-C20-6", "an enum option that holds an integer outside its enumerators (set through the API) is rejected with an exception or runs with every read defined", floor=12)
+    bad_values = {"extrapolation": (4, 7, -1), "cycle": (3, -1), "FMG_cycle": (3, -1), "norm": (3, -1)}
+    for opt, vals in bad_values.items():
+        for v, fmg, L in itertools.product(vals, (False, True), (2, 3)):
+            if tier == "quick" and L == 3 and opt != "extrapolation":
+                continue
+            mode = {"L": L, "FMG": fmg, "FMG_iterations": 1, "FMG_cycle": 0, "extrapolation": 0, "cycle": 0, "nu1": 1, "nu2": 1,
+                    "max_iterations": 1, "abs_tol": True, "rel_tol": True, "exact": False, "norm": 0, "verbose": 0, "paraview": False}
+            mode[opt] = v
+            what = "%s=%d FMG=%s L=%d" % (opt, v, fmg, L)
+            ck.instance("R-C20-6", what)
+            try:
+                outs = sr.scenario_fresh(prog, mode, with_accessors=True)
+            except ir.AnalysisBroken as ex:
+                ck.undecide("R-C20-6", what, "outside the driver model: %s" % str(ex)[:120])
+                continue
+            bad = None
+            for o in outs:
+                if o.throws:
+                    continue        # rejected cleanly
+                evs = [ev for ev in o.dom.events if ev.kind in UB_KINDS]
+                if evs:
+                    bad = evs[0]
+                    break
+            if bad:
+                ck.violation("R-C20-6", "invalid-enum:%s:%s" % (opt, bad.kind), bad.site, "%s: not rejected, and %s (in %s)" % (what, bad.msg, bad.fn))
+            else:
+                ck.ok("R-C20-6", what, sample={"mode": what, "outcome": "rejected: %s" % outs[0].throws.what[:60] if outs and outs[0].throws else "runs, every read defined"} if (opt, v, fmg, L) == ("extrapolation", 7, False, 2) else None)
     exact_error_table(ck, tier)
     ck.extra["modes"] = n_modes
     ck.extra["paths"] = n_paths
